@@ -13,7 +13,7 @@ LEVEL = "proof"
 READY = True
 SYSTEMS = [c16_dqueue, c16_shcounter, c16_loadbalancer, c16_gcounter, c16_proxy, c16_shopcart, c16_nested, c16_replicatedkv]
 # walks per system: quick, thorough
-BUDGET = {"dqueue": (20, 1200), "shcounter": (10, 400), "loadbalancer": (16, 1000), "gcounter": (14, 800), "proxy": (16, 800), "shopcart": (12, 600), "nestedcrdtimpl": (14, 700), "replicatedkv": (6, 100)}
+BUDGET = {"dqueue": (12, 1200), "shcounter": (6, 400), "loadbalancer": (10, 1000), "gcounter": (8, 800), "proxy": (10, 800), "shopcart": (8, 600), "nestedcrdtimpl": (8, 700), "replicatedkv": (4, 100)}
 
 TRUSTED_BASE = [
     "Coq 8.16.1 kernel (coqc, full .vo build); vm_compute used in the non-vacuity Examples and in the correspondence evaluation",
@@ -180,6 +180,6 @@ MANIFEST = {
              "assertion/type freedom incl. the client's resp.id = reqId (one-outstanding-request token invariant). nestedcrdtimpl: MonotonicState (no component of any replica state decreases in any step), view never decreases; StateSanity as written in the spec is refuted (it sums over SETS; known finding, witness replayed on the generated code) and the bound it intends (no replica shows more than the writes issued) is proved, with the handshake / write-accounting invariants and the Node's assertion freedom; only type-safety of the with-chosen send target is oracle-only. replicatedkv: no model and no theorem, assertion-freedom walks only (oracle: failed assertion / TLA+ type error / crash in any of its five archetypes). The *.gotests programs: NOT covered. Tie: the generated archetypes "
              "run under the real Run loop one attempt at a time over spec-state resources (the specs' mapping macros); each model runs the same schedule in Coq; every "
              "post-state and outcome compared; implementation-side oracles per system on the Go observations."),
-    "level_note": ("Partial as stated per system; systems not modelled are not covered. Trusted: Coq kernel; hand-written models (differential tie: 108 quick / 5600 thorough "
+    "level_note": ("Partial as stated per system; systems not modelled are not covered. Trusted: Coq kernel; hand-written models (differential tie: 66 quick / 5600 thorough "
                    "walks + corpus); spec-state resources replacing the deployment resources; gcounter's merge process is a Go transcription of the spec process."),
 }
